@@ -226,23 +226,30 @@ class Prop:
             'unknown), entry counts 0 .. 3 frames (procedural bulk entries of mixed sizes around the frame boundary), attribute blocks 0 .. above the '
             'frame limit (4096 and 65535), ADD-PATH modes, extended message on one/both sides, two-octet-AS sessions with wide AS numbers / '
             'confederation segments / AGGREGATOR, next hops of 4/16/32 octets or none per family, VPN / labeled NLRI with 1-4 labels, a malformed '
-            'stream (masks past the address size, truncated AS_PATH, value attributes with binary codes, label stacks past 255 bits); '
+            'stream (masks past the address size, truncated AS_PATH, value attributes with binary codes, label stacks past 255 bits); plus the '
+            'audit classes enumerated on every run (tag audit): exact-fit sweeps per wire form, attribute / AS_PATH / AGGREGATOR / OPEN / '
+            'NOTIFICATION boundaries, every prefix length, label depths up to 255 bits, ADD-PATH / session / negotiation matrices, and per family '
+            'every component / route type / descriptor with the values on both sides of every length switch (Flowspec 239/240/241 and 4095, '
+            'operator widths 255/256, 65535/65536, 2^32); '
             'non-trivial = a Reach/Unreach with >= 1 entry or an OPEN with capabilities that was encoded; distinct = distinct '
             '(kind, family, frame count, entry count, digest of the bytes written)')
     exhaustive = {'quick': False, 'thorough': False}
     trusted_base = [
         'Model/WireEnc.v covers PeerCodec::negotiate / encode_to / do_encode / put_entries / mp_reach_encode / mp_unreach_encode, Attribute::encode, '
-        'the RFC 6793 down-conversion helpers, Capability::encode, Notification::from_notification, Ipv4Net / Ipv6Net / VPN / labeled / MPLS label '
-        'encoders; NLRI of the other 11 families (EVPN, Flowspec x4, BGP-LS, MUP x2, SR Policy x2, RTC) enter the model as their wire bytes: their '
-        'framing, splitting and size accounting are modelled and proved, their inner encoding is checked only differentially (harness builds them '
-        'with the crate\'s own per-family decode, the python oracle compares what the peer decodes, byte for byte)',
+        'the RFC 6793 down-conversion helpers, Capability::encode, Notification::from_notification, and the NLRI encoders of all 19 families of the '
+        'code: Ipv4Net / Ipv6Net, VPN, labeled (incl. encode_withdraw), MPLS labels, Flowspec x4 (components, operator widths, length prefix), RTC, '
+        'EVPN route types 1-5, SR Policy, MUP route types 1-4, BGP-LS (NLRI types 1-4 and 6 with their descriptors as <type, value> TLVs; the '
+        'harness builds the crate\'s structs / enum variants from those pairs); only NLRI of a family the code does not know stay opaque octets',
         'the DECODER (PeerCodec::try_parse / parse_message) is not modelled here (property C03): "decodes to the same routes" is proved against the '
-        'structural reader Spec/WireRead.v written from RFC 4271/4760/7911/5492 and, for the real decoder, judged on every run by the python oracle '
-        '(gen/c04spec.py) on the output of PeerCodec::negotiate(remote, local).try_parse; decode(encode(decode b)) = decode b is checked by the '
-        'harness on every decoded value (differential only, no theorem)',
-        'harness/hx-enc builds Message values through the public constructors of rustybgp-packet (Attribute::new_with_value / new_with_bin / '
-        'new_opaque, Notification::from_notification, RouteDistinguisher::decode, per-family NLRI decode); long buffers are compared through '
+        'structural readers Spec/WireRead.v and Spec/WireReadFam.v written from the RFCs and, for the real decoder, judged on every run by the python '
+        'oracle (gen/c04spec.py: RFC encoders of every family compared octet for octet with the NLRI fields of the frames, RFC 6793 wire form of the '
+        'attributes, what PeerCodec::negotiate(remote, local).try_parse returns); decode(encode(decode b)) = decode b is proved for the NLRI readers '
+        'of the structured families and checked on every decoded value of the real decoder by the harness',
+        'harness/hx-enc builds Message values through the public constructors and public fields of rustybgp-packet (Attribute::new_with_value / '
+        'new_with_bin / new_opaque, Notification::from_notification, RouteDistinguisher::decode, NLRI structs); long buffers are compared through '
         '(length, Fletcher-style digest), buffers up to 256 bytes byte for byte',
+        'IPv6 Flowspec prefix components are written (and read back, by the code and by the Spec reader) as ceil(length / 8) octets from bit 0; '
+        'RFC 8956 3.1 counts the pattern from the offset: identical for offset 0, self-consistent otherwise (outside the property text)',
     ]
     assumptions = [
         'the family of a Reach/Unreach is one both sides announced, and the kind of every NLRI is the one of the family (what the export path builds)',
